@@ -134,6 +134,9 @@ func TestHandshaker(t *testing.T) {
 	rng := rand.New(rand.NewSource(seed() + 3))
 	k := 0
 	add := func(steps []string) {
+		if out.Stop() {
+			return // enough scenarios hung: each costs the real-time watchdog period
+		}
 		k++
 		label := fmt.Sprintf("hs-%d", k)
 		out.Add(label, rec.Ev{"label": label}, fmt.Sprint(steps), runHandshaker(t, steps, k%2 == 0))
